@@ -1137,7 +1137,7 @@ class SortDom(QDom):
 
 def _canon_cmp(ops, rel):
     """one spelling per comparison: operands in lexicographic order (cmp(b, a) >= 0 is cmp(a, b) <= 0 for a consistent callback);
-    the outcome is 'stop' (<= 0 or < 0: where equal elements go is not fixed by the property) or 'go' (> 0 or >= 0)"""
+    the relation is kept as written: <= 0 (stop also on equal elements) and < 0 are different scans"""
     a, b = ops.split('|')
     if a > b:
         a, b = b, a
@@ -1169,8 +1169,9 @@ def _same_scan(tr, ref):
     for (o1, r1), (o2, r2) in zip(tr, ref):
         if o1 != o2:
             return False
-        lo = {'<=': '<', '<': '<', '>': '>', '>=': '>'}
-        if lo.get(r1) is None or lo.get(r1) != lo.get(r2):
+        # equal elements: the reference stops at the first element that does not compare beyond the new one (<= 0), so elements that
+        # compare equal keep their order of arrival; a strict test reverses them and is a different sequence
+        if r1 not in ('<=', '<', '>', '>=') or r1 != r2:
             return False
     return True
 
@@ -1335,7 +1336,7 @@ def q11(ctx, fns, m, lk):
                     touched = shape.touched_summary(lf, h)
                     if touched:
                         probs.append('ring %s at %s: reads inside the unexamined part of the ring (%s)' % (r, at, touched))
-                    outcome = 'stop' if tr[0][1] in (stop_rel, stop_rel[0]) else 'go' if tr[0][1] in ({'<=': '>', '>=': '<'}[stop_rel], {'<=': '>=', '>=': '<='}[stop_rel]) else None
+                    outcome = 'stop' if tr[0][1] == stop_rel else 'go' if tr[0][1] == {'<=': '>', '>=': '<'}[stop_rel] else None
                     if outcome == 'stop':
                         seen.add('stop')
                         if kind != 'ret':
@@ -1356,7 +1357,7 @@ def q11(ctx, fns, m, lk):
                                 continue
                             pr = check_ring(lf, h, 'ctx', want_end, orig_of([names]))
                     else:
-                        pr = ['the comparison result is tested as %s 0, expected <= 0' % tr[0][1]]
+                        pr = ['the comparison result is tested as %s 0 (canonical operand order), the reference stops on <= 0: elements that compare equal would change places' % tr[0][1]]
                     if kind == 'ret' and name == 'a_que_push_sort' and not (isinstance(v, Ptr) and v == Ptr('N', SZ)):
                         pr.append('returns %s, expected the payload of the new node' % (v,))
                     probs += ['ring %s at %s, comparison %s: %s' % (r, at, tr[0][1], x_) for x_ in pr]
